@@ -190,8 +190,11 @@ class Gen:
     def storage(self, count):
         rng, N = self.rng, self.N
         out = []
-        for _ in range(count):
-            n = rng.choice([2, 2, 3, 3, 4, 5, 6])
+        for idx in range(count):
+            # every 4th case sits still on a vertical step of the release curves, every 4th starts on an interior table
+            # point (guaranteed reach, whatever the seed); the others are drawn freely
+            cat = idx % 4
+            n = rng.choice([2, 2, 3, 3, 4, 5, 6] if cat >= 2 else [3, 3, 4, 5, 6])
             style = rng.choice(['spillway', 'spillway', 'general', 'general', 'flat', 'wet-bottom'])
             levels, volumes, areas, minrel, maxrel = c13.gen_tables(rng, n, style)
             dt = rng.choice([86400.0, 86400.0, 86400.0, 3600.0, 43200.0, 600.0, 60.0, float(rng.randint(1, 86400))])
@@ -201,6 +204,31 @@ class Gen:
             rain, pet, inflow, demand = c13.gen_series(rng, regime, N, flowcap, dt, maxrel[-1])
             v0 = rng.choice([0.0, volumes[0], cap, cap * 1.3, cap * rng.random(), cap * rng.random(), cap * 0.999, cap * 0.01])
             tmc = [rng.choice([0.0, cap * 0.1])] * N
+            # table points: a storage started EXACTLY on a row of its level/volume/area table (full supply, a crest, the
+            # dead storage are normally rows) -- first, interior and last point; and tables with a repeated volume (a
+            # vertical step of the release curves, e.g. a spillway crest listed twice)
+            r = rng.random()
+            if cat == 0:
+                r = 0.0
+            elif cat == 1:
+                r = 0.4
+            if r < 0.5:
+                k = rng.choice(([0, n - 1] if cat >= 2 else []) + list(range(1, n - 1)) * 3)
+                if r < 0.3 and 1 <= k <= n - 2 and volumes[0] < volumes[k]:
+                    for tab in (levels, volumes, areas, minrel, maxrel):
+                        tab.insert(k + 1, tab[k])
+                    # the step: the minimum release jumps at this volume (a crest), the curves stay ordered above it
+                    minrel[k + 1] = minrel[k] + rng.uniform(0.05, 0.5) * max(maxrel[-1], cap / 86400.0 * 0.01)
+                    for j in range(k + 1, len(minrel)):
+                        minrel[j] = max(minrel[j], minrel[k + 1])
+                        maxrel[j] = max(maxrel[j], minrel[j])
+                    n += 1
+                    style += '+step'
+                v0 = volumes[k]
+                if cat == 0 or rng.random() < (0.65 if style.endswith('+step') else 0.35):
+                    # nothing moves: the volume stays on the table point for the whole run
+                    rain, pet, inflow, demand = [0.0] * N, [0.0] * N, [0.0] * N, [0.0] * N
+                    regime = 'static-on-table-point'
             params = [dt, float(n)] + levels + volumes + areas + minrel + maxrel
             out.append(mkcase('Storage', params, [v0, -1.0, -2.0], [rain, pet, inflow, demand, [0.0] * N, tmc],
                               style=style, regime=regime))
@@ -383,9 +411,17 @@ def split_results(line):
     if not line.startswith(('OK ', 'PANIC')):
         return None
     try:
-        return [parse_kresult(p.strip()) for p in line.split(' | ')]
+        return [parse_kresult(p.strip()) for p in line.split(' | ') if not p.startswith('PARENT')]
     except (IndexError, ValueError, AssertionError):
         return None
+
+
+def parent_part(line):
+    """the trailing ' | PARENT checks bad [detail]' of a SPLIT answer in a view mode -> (checks, bad, detail) or None"""
+    last = line.rsplit(' | ', 1)[-1].split()
+    if len(last) >= 3 and last[0] == 'PARENT':
+        return int(last[1]), int(last[2]), ' '.join(last[3:])
+    return None
 
 
 def brief(cs):
